@@ -212,6 +212,18 @@ def reach_task(n, fold, what):
                 q.put('mut', True)
         twin = impl[1]
     bad += unchanged()
+    if what == 'reverse':
+        # independence of the results from later changes of the receiver: G is modified through its own API, then the
+        # (old) reversed graph is reversed again and must still give the OLD graph
+        ctx.call(ctx.getattr1(g, 'add_node'), ['fresh'], {})
+        ctx.call(ctx.getattr1(g, 'add_edge'), ['fresh', 0], {})
+        ctx.call(ctx.getattr1(g, 'add_edge'), [0, 'fresh2'], {})
+        rr2 = ctx.call(sfold(r, lambda o: ctx.getattr1(o, 'get_reversed_graph')), [], {})
+        rr2v = GView(rr2)
+        impl += [rr2v.member(i, j) for i in range(n) for j in range(n)]
+        bad += [b_not(rr2v.node(i)) for i in range(n)] + [rr2v.foreign_keys(range(n)), rr2v.foreign_members(range(n))]
+        rv2 = GView(r)
+        bad += [rv2.foreign_keys(range(n)), rv2.foreign_members(range(n))]       # the first reversed graph did not move either
     bad.append(exc_guard(fr))
     bad.append(unwind_guard(vm))
     t1 = time.time()
@@ -224,7 +236,7 @@ def reach_task(n, fold, what):
         reach = oracles.closure(e2, n)
         want = [b_or(*[b_and(x2[i], reach[i][j]) for i in range(n)]) for j in range(n)]
     elif what == 'reverse':
-        want = [e2[j][i] for i in range(n) for j in range(n)] + [e2[i][j] for i in range(n) for j in range(n)]
+        want = [e2[j][i] for i in range(n) for j in range(n)] + [e2[i][j] for i in range(n) for j in range(n)] + [e2[i][j] for i in range(n) for j in range(n)]
     elif what == 'subgraph':
         want = [x2[i] for i in range(n)] + [b_and(x2[i], x2[j], e2[i][j]) for i in range(n) for j in range(n)]
     else:
@@ -261,6 +273,10 @@ elif what == 'reverse':
     if set(r.nodes()) != set(range(n)) or set(r.edges()) != {(b, a) for (a, b) in E}: bad.append('reversed graph %%s' %% r)
     rr = r.get_reversed_graph()
     if set(rr.nodes()) != set(range(n)) or set(rr.edges()) != set(E): bad.append('double reversal %%s' %% rr)
+    G2 = DiGraph(V=range(n), E=E); r2 = G2.get_reversed_graph()
+    G2.add_node('fresh'); G2.add_edge('fresh', 0); G2.add_edge(0, 'fresh2')
+    rr2 = r2.get_reversed_graph()
+    if set(rr2.nodes()) != set(range(n)) or set(rr2.edges()) != set(E): bad.append('reversing the reversed graph after the original was modified gives %%s' %% rr2)
 elif what == 'subgraph':
     s = G.get_subgraph(set(X))
     if set(s.nodes()) != set(X) & set(range(n)) or set(s.edges()) != {(a, b) for (a, b) in E if a in X and b in X}: bad.append('subgraph %%s' %% s)
